@@ -37,6 +37,7 @@ func run(r *vk.Run) {
 		"After every masked Get / Pull open: the value equals the reference projection of the full Get, and the full Get is the same as before the read. "+
 		"History 0 of every triple is run by every worker first: a directed part (for every value the table lists as accepted by a business rule - preset names, mode ids - Update {field: value}, then a masked Get and a masked Pull for every mask path at or below that field) and one step of every operation class, so that a class that crashes the process or damages the server state is found early and (like a crashed class) not used again on that server. "+
 		"Forced windows (vk.Sched on the verif hooks, 4/60 repetitions per triple): a new Pull parked between snapshot and listener registration while an accepted large Update is started, and an Update parked between commit and publication while a new Pull is opened; after the release, at quiescence, the Update has returned, the stream ends on its response and Get equals it. "+
+		"Stalled reader (1/12 repetitions per triple): a Pull whose client takes the seed and stops receiving, then up to 6 accepted large Updates one after the other: each has returned at the next quiescent point, OK => equals the next Get, error => Get unchanged; then the stream is cancelled and a fresh Pull plus one Update are checked as usual. "+
 		"A case is distinct by (server, triple, operation, value kind, mask class and paths, outcome code, top-level fields that changed, stream configuration) and non-trivial when it reaches the server (every counted case does).",
 		"reference projection is vk.RefProject (independent of pkg/masks); read masks are valid paths only and never contain a path together with one of its descendants (invalid read masks and parent+child masks are C06's subject)",
 		"'changes the value beyond the tolerance' is decided on the observed values: a non-float leaf differs, or a float leaf differs by >= 1 (configured tolerances in pkg/trait models with a triple: 0.01 absolute); smaller changes may or may not be delivered",
@@ -81,6 +82,24 @@ func run(r *vk.Run) {
 		for _, t := range targets {
 			r.Require("checked/"+w.name+"/"+t.e.id+"/"+t.tr.x, reps/2)
 		}
+	}
+
+	// stalled reader: every triple x repetitions
+	sreps := r.Pick(1, 12)
+	sno := 0
+	for rep := 0; rep < sreps; rep++ {
+		for _, t := range targets {
+			sno++
+			if !r.Mine(sno) || !r.Selected(t.base) {
+				continue
+			}
+			runStalled(r, t, rep)
+		}
+	}
+	r.Require("stalled/run", len(targets)*sreps)
+	r.Require("stalled/accepted-large-updates", len(targets)*sreps*stalledUpdates*3/4)
+	for _, t := range targets {
+		r.Require("stalled/accepted-large-updates/"+t.e.id+"/"+t.tr.x, sreps*4)
 	}
 
 	per := r.Pick(70, 9000)
